@@ -119,7 +119,7 @@ def c01_2(ctx: Ctx):
               reason_ok=f"{n_pts} order types")
 
 
-@rule("C01.4", ["C01", "C02", "C05"], "delete(): split, remove, then splice out exactly the requested range with the edited block static", 6)
+@rule("C01.4", ["C01", "C02", "C05", "C10"], "delete(): split, remove, then splice out exactly the requested range with the edited block static", 6)
 def c01_4(ctx: Ctx):
     fi = ctx.repo.func("_modify.edit.delete")
     lin = linear(fi.node)
@@ -165,7 +165,7 @@ def c01_4(ctx: Ctx):
     ctx.check(ok, fi, early[0].node if early else fi.node, "empty range on a non-empty block is a no-op", "the early return for an empty deletion changed")
 
 
-@rule("C01.5", ["C01", "C07"], "_apply_modifications accounts net growth and computes the actual offset from it", 6)
+@rule("C01.5", ["C01", "C07", "C09"], "_apply_modifications accounts net growth and computes the actual offset from it", 6)
 def c01_5(ctx: Ctx):
     fi = ctx.repo.func("rewriting.RewritingContext._apply_modifications")
     lin = linear(fi.node)
@@ -211,7 +211,7 @@ def c01_5(ctx: Ctx):
                   f"arguments are {[src(a) for a in cs[0].args] if cs else '?'}")
 
 
-@rule("C01.6", ["C01", "C07", "C11", "C09"], "modifications are ordered by (offset, registration id) and must not overlap", 6)
+@rule("C01.6", ["C01", "C07", "C11", "C09", "C04"], "modifications are ordered by (offset, registration id) and must not overlap", 6)
 def c01_6(ctx: Ctx):
     repo = ctx.repo
     fi = repo.func("rewriting._ModificationStore.resolve_offsets")
